@@ -156,7 +156,8 @@ def gen(seed, tier, index):
         n += 1; s = "Q%d" % n
         rec.append({"f": "C_OpenSession", "slot": tt, "flags": RW, "out": s, "rtok": tt, "r5": True})
         rec.append({"act": "find", "s": s, "tmpl": [A_bytes(K.CKA_LABEL, b"o9999")], "batches": [], "rtok": tt, "r5": True})
-    g.extra["crash"] = {"tid": 0, "op": vidx, "torn": True, "recover": rec, "recover_pid": 2, "max": 160 if tier == "quick" else 3000}
+    g.extra["crash"] = {"tid": 0, "op": vidx, "torn": True, "recover": rec, "recover_pid": 2, "max": 160 if tier == "quick" else (400 if g.knobs["conf"].get("objectstore.backend") == "db" else 3000)}
+    if tier != "quick": g.knobs["watchdog_s"] = 900       # thousands of recoveries in one child: the real-time watchdog (a guard against a stuck simulator, not an oracle) gets more room
     g.extra["victim"] = victim
     g.extra["pins"] = {tt: {"user": [p.hex() if p is not None else None for p in pp["user"]], "so": [p.hex() for p in pp["so"]], "fresh": pp.get("fresh", False)} for tt, pp in pins.items()}
     vs = g.w.sess(1, vop.get("s")) if "s" in vop else None
